@@ -1533,7 +1533,7 @@ def compile_try_expression(compiler, expr, root, body, catchers, orelse, finalbo
         )
         handlers.append(handler_results.stmts.pop())
 
-    if orelse is None:
+    if not orelse:
         orelse = []
     else:
         orelse = compiler._compile_branch(orelse)
